@@ -14,7 +14,7 @@ ENGINES = [
     {
         "name": "E3-choice-tape",
         "path": "mc/tape.py",
-        "serves_properties": ["C02"],
+        "serves_properties": ["C02", "C03"],
         "kind_free_text": "stateless depth-first exploration of environment answers (which model / which reply order / which "
         "PRNG draw) with prefix replay and divergence detection",
     },
@@ -28,7 +28,7 @@ ENGINES = [
     {
         "name": "E1-enumerator",
         "path": "mc/par.py",
-        "serves_properties": ["C01", "C13"],
+        "serves_properties": ["C01", "C03", "C13"],
         "kind_free_text": "bounded-exhaustive enumeration of a closed input space, sharded over 16 processes, every case "
         "executed on the real code and compared with a reference model",
     },
@@ -66,6 +66,20 @@ CHECKS = [
         "note": "Conforming-backend assumption (returns some model of all constraints given). External solvers are replaced by "
         "the reference solver mc/sugar_model.py. More than 3 variables / domains wider than 3 values are covered by the argument "
         "that the loop only compares per-variable values.",
+    },
+    {
+        "id": "C03",
+        "engine": "E1-enumerator+E3-choice-tape",
+        "category": "model_checking",
+        "technique": "exhaustive program/reply enumeration with a reference Sugar parser+solver behind the real entry points; choice tape over model choice and reply-line order",
+        "text": "Every program of the C01 generator (k<=1 over all leaves, k=2 on reduced leaves) plus native-operator programs on "
+        "all graphs n<=3 is emitted through all five backend names; each captured text is parsed by a strict grammar, its "
+        "declarations/keys compared with the Solver and its denotation compared with the cspuz program on every assignment; every "
+        "well-formed reply of both formats for <=3 variables is fed to the parsers; results through module and subprocess entry "
+        "points must satisfy the C01/C02 oracles for every model choice / line order.",
+        "design_ref": "DESIGN.md section 2, C03",
+        "note": "Trusted base: my transcription of Sugar's syntax and of CspuzSugarInterface.java's output (mc/sugar_model.py). No "
+        "real external solver binary exists offline, so only cspuz's side of the wire is validated.",
     },
     {
         "id": "C13",
